@@ -28,20 +28,21 @@ ASSUMPTIONS = [
 ]
 BUDGET = {
     'quick': [dict(name='main', env={}, shards=2,
-                   cases={'uniform': 500, 'gaussian': 500, 'strings': 250, 'defaults': 250, 'defaults_objects': 100})],
+                   cases={'uniform': 500, 'gaussian': 500, 'strings': 250, 'defaults': 250, 'defaults_objects': 100, 'optimizer': 40})],
     'thorough': [dict(name='main', env={}, shards=16,
-                      cases={'uniform': 3200, 'gaussian': 3200, 'strings': 1500, 'defaults': 1500, 'defaults_objects': 600}),
+                      cases={'uniform': 3200, 'gaussian': 3200, 'strings': 1500, 'defaults': 1500, 'defaults_objects': 600, 'optimizer': 300}),
                  dict(name='repo-tests', env={}, shards=1, cases={'repo_tests': 1})],
 }
 REQUIRED = dict(monitors=['contract:uniform.sample', 'contract:gaussian.sample', 'contract:prior.prior',
                           'uniform-inverse-cdf', 'gaussian-roundtrip-cdf', 'text-equals-direct',
                           'default-prior', 'monotone', 'lin-equivalence', 'default-prior-of-own-bounds',
-                          'text-read-again-equals-direct', 'clone:same-class-and-space', 'clone:same-map', 'caller-input-left-alone'],
+                          'text-read-again-equals-direct', 'optimizer-default-prior-follows-current-bounds', 'clone:same-class-and-space', 'clone:same-map', 'caller-input-left-alone'],
                 classes=['Uniform', 'LogUniform', 'Gaussian', 'LogGaussian', 'bounds-reversed', 'u=0', 'u=1',
                          'set_bounds-on-live-object', 'text:first-object-retuned', 'modify_bounds:NPoint',
                          'modify_bounds:Isothermal', 'clone:deepcopy', 'clone:pickle', 'clone:pickle2', 'clone:copy',
                          'layout:0-d', 'layout:(n,1)', 'layout:(1,n)', 'layout:2-d-C', 'layout:2-d-F', 'layout:transposed-view',
-                         'layout:strided', 'layout:read-only', 'layout:list', 'bounds:given-as-caller-array'])
+                         'layout:strided', 'layout:read-only', 'layout:list', 'bounds:given-as-caller-array', 'optimizer-bounds-rewritten:ordinary',
+                         'optimizer-bounds-rewritten:a-few-parts-per-billion', 'optimizer-bounds-rewritten:between-tiny-values'])
 
 
 def classify(f):
@@ -500,6 +501,72 @@ def wl_defaults_objects(ctx, rng):
     ctx.sig('defaults-objects', cls.__name__, target, tuple(new))
 
 
+def wl_optimizer(ctx, rng):
+    """Default priors on a living Optimizer: compiled, bounds written again through set_boundary -- by an ordinary
+    amount, by a few parts per billion, or between two tiny values (1e-12 -> 1e-10: decades apart in the prior's log
+    space, 1e-10 apart in absolute terms) -- and compiled again.  After every compile each default prior is the
+    inverse CDF of the uniform distribution over the bounds the parameter has NOW, in the space of its mode."""
+    from taurex.optimizer import Optimizer
+    from taurex.core.priors import Uniform, LogUniform
+    from vmon.props import c07
+    model, spec = c07.make_model(rng)
+    obs = c07.make_obs(rng)
+    opt = Optimizer('vmon', observed=obs, model=model)
+    fp = model.fittingParameters
+    pool = [n for n, t in fp.items() if isinstance(t[2](), float) and t[2]() > 0 and len(t[6]) == 2
+            and min(t[6]) > 0 and n != 'nlayers']
+    chosen = [str(pool[i]) for i in rng.choice(len(pool), min(len(pool), int(rng.integers(2, 6))), replace=False)]
+    cur = {}
+    for n in chosen:
+        opt.enable_fit(n)
+        mode = ['linear', 'log'][rng.integers(0, 2)]
+        opt.set_mode(n, mode)
+        cur[n] = [mode, [float(b) for b in fp[n][6]]]
+    u = u_grid(rng)
+
+    def judge(stage):
+        opt.compile_params()
+        names = [p[0] for p in opt.fitting_parameters]
+        for n, pr in zip(names, opt.fitting_priors):
+            if n not in cur:
+                continue
+            mode, (a, b) = cur[n]
+            la, lb = (math.log10(a), math.log10(b)) if mode == 'log' else (a, b)
+            wit = dict(param=n, mode=mode, bounds=(a, b), stage=stage)
+            ctx.check('optimizer-default-prior-follows-current-bounds', type(pr) is (LogUniform if mode == 'log' else Uniform),
+                      got=type(pr).__name__, **wit)
+            ctx.close('optimizer-default-prior-follows-current-bounds', pr.boundaries(), (min(la, lb), max(la, lb)), 1e-13,
+                      atol=1e-13, **wit)
+            ctx.close('optimizer-default-prior-follows-current-bounds', pr.sample(u), uniform_oracle(la, lb, u), 1e-11,
+                      atol=1e-11 * max(abs(la), abs(lb)), **wit)
+    judge('first compile')
+    for rnd in range(int(rng.integers(1, 4))):
+        n = chosen[int(rng.integers(0, len(chosen)))]
+        mode, (a, b) = cur[n]
+        a, b = min(a, b), max(a, b)
+        k = rng.integers(0, 3)
+        if k == 0:
+            new = [a * rng.uniform(0.3, 0.9), b * rng.uniform(1.1, 3.0)]
+            kind = 'ordinary'
+        elif k == 1:
+            new = [a * (1.0 + 10 ** rng.uniform(-9, -6)), b * (1.0 - 10 ** rng.uniform(-9, -6))]
+            kind = 'a-few-parts-per-billion'
+        else:
+            lo = float(10 ** rng.uniform(-13, -9.5))
+            new = [lo, lo * float(10 ** rng.uniform(0.5, 3.0))] if rng.random() < 0.5 else [lo, max(b, 2 * lo)]
+            if mode != 'log' and rng.random() < 0.5:
+                opt.set_mode(n, 'log')
+                cur[n][0] = 'log'
+            kind = 'between-tiny-values'
+        if rng.random() < 0.3:
+            new = new[::-1]
+        opt.set_boundary(n, list(new))
+        cur[n][1] = [float(new[0]), float(new[1])]
+        ctx.observe('optimizer-bounds-rewritten:' + kind)
+        judge('after set_boundary (%s)' % kind)
+    ctx.sig('optimizer', tuple(sorted(cur)), tuple(tuple(v[1]) for v in cur.values()))
+
+
 def wl_repo_tests(ctx, rng):
     """The repository's own prior tests, run with the contracts on (same process)."""
     import pytest
@@ -516,7 +583,7 @@ def wl_repo_tests(ctx, rng):
 
 
 WORKLOADS = {'uniform': wl_uniform, 'gaussian': wl_gaussian, 'strings': wl_strings, 'defaults': wl_defaults,
-             'repo_tests': wl_repo_tests, 'defaults_objects': wl_defaults_objects}
+             'repo_tests': wl_repo_tests, 'defaults_objects': wl_defaults_objects, 'optimizer': wl_optimizer}
 
 LEVEL_TEXT = ('Exploration by runtime monitoring: icontract postconditions on the real Uniform/Gaussian sample() and '
               'Prior.prior(), judged against the inverse CDF computed from the constructor arguments a tap recorded, '
